@@ -81,7 +81,7 @@ Section Block.
 
   Lemma do_block_spec i m : i + 32 <= length m -> 31 * R + i + 32 <= length s ->
     wf_matrix 32 m ->
-    exists m', do_block s R i m = Ok m' /\ wf_matrix 32 m' /\ length m' = length m /\
+    exists m', do_block s R i i m = Ok m' /\ wf_matrix 32 m' /\ length m' = length m /\
       forall r, nth r m' [] = if (i <=? r) && (r <? i + 32) then striped_row K 32 R s r else nth r m [].
   Proof.
     intros Hi Hb Hwf. unfold do_block.
@@ -118,22 +118,33 @@ Section Block.
 
   (* ---------- the block loop ---------- *)
 
+  (* the translated loop condition guarantees that a whole 32-row block exists and that
+     the last of its 32 vector loads ends inside the sequence *)
+  Lemma blk_cond_true i L : blk_cond i R L = true -> i + 32 <= R /\ 31 * R + i + 32 <= L.
+  Proof.
+    unfold blk_cond. rewrite ?andb_true_iff, ?Nat.leb_le, ?Nat.ltb_lt. lia.
+  Qed.
+
+  (* i, the source offset and the output row advance together, by one block *)
+  Lemma blk_steps : blk_i_step = 32 /\ blk_src_step = 32 /\ blk_out_step = 32.
+  Proof. repeat split; reflexivity. Qed.
+
   Lemma block_loop_spec : forall fuel i m,
     R <= i + fuel -> i <= R -> wf_matrix 32 m -> length m = R ->
     (forall r, r < i -> nth r m [] = striped_row K 32 R s r) ->
-    exists i' m', block_loop fuel s R i m = Ok (i', m') /\ wf_matrix 32 m' /\ length m' = R /\ i' <= R /\
+    exists i' m', block_loop fuel s R i i i m = Ok (i', m') /\ wf_matrix 32 m' /\ length m' = R /\ i' <= R /\
       forall r, r < i' -> nth r m' [] = striped_row K 32 R s r.
   Proof.
+    destruct blk_steps as (Ei & Es & Eo).
     induction fuel as [|f IH]; intros i m Hf Hi Hwf Hlen Hinv.
-    - cbn [block_loop]. destruct (Nat.leb_spec (i + 32) R); [lia|]. cbn [andb].
-      exists i, m. repeat split; auto.
-    - cbn [block_loop].
-      destruct (Nat.leb_spec (i + 32) R) as [H1|H1]; cbn [andb].
+    - cbn [block_loop]. destruct (blk_cond i R (length s)) eqn:Ec.
+      + apply blk_cond_true in Ec. lia.
+      + exists i, m. repeat split; auto.
+    - cbn [block_loop]. destruct (blk_cond i R (length s)) eqn:Ec.
       2:{ exists i, m. repeat split; auto. }
-      destruct (Nat.leb_spec (31 * R + i + 32) (length s)) as [H2|H2].
-      2:{ exists i, m. repeat split; auto. }
+      apply blk_cond_true in Ec. destruct Ec as [H1 H2].
       destruct (do_block_spec i m ltac:(lia) H2 Hwf) as (m1 & Hrun & Hwf1 & Hlen1 & Hrows).
-      rewrite Hrun. cbn [rbind].
+      rewrite Hrun. cbn [rbind]. rewrite Ei, Es, Eo.
       apply IH; try lia; auto.
       intros r Hr. rewrite Hrows.
       destruct (Nat.leb_spec i r); destruct (Nat.ltb_spec r (i + 32)); simpl; try reflexivity; try lia.
